@@ -86,7 +86,7 @@ def edit_in_place(o, r, keys):
             return f"grow-list {p}"
         kind = "set-leaf"
     if kind == "add":
-        absent = [k for k in (keys or []) if k not in ("S", "T", "L") and not any(part.isdigit() for part in k.split("."))
+        absent = [k for k in (keys or []) if k not in ("S", "T", "L") and not any(part.lstrip("-").isdigit() for part in k.split("."))
                   and U.lookup(k, o) is U.ABSENT and _settable(o, k)]
         if absent:
             k = r.choice(absent)
